@@ -293,6 +293,33 @@ def run(world, rep, tier, only=None):
                depends_on(cg, arg(c, 1), lambda y: isinstance(y, dict) and y.get("k") == "m" and y.get("f") == "cluster_bits"),
                "argument `%s` of ext2fs_test_generic_bmap() involves ->cluster_bits" % T.pp(arg(c, 1))[:40])
 
+    # ------------------------------------------------------------------ C16.i "was anything there" is answered for the range, not for its neighbour
+    # rb_remove_extent(start, count) returns whether a bit of [start, start + count) was set - that is what
+    # unmark()/unmark_range() hand back.  An extent that merely begins where the range ends is not touched: on the way
+    # to every `retval = 1`, each comparison of an end (start + count) with a beginning admits no path on which the
+    # two are equal.
+    rre = prog.fn("rb_remove_extent", RB)
+    hits_ = [n for n in rre.events("S") if T.path(n.ev["lhs"]) == "retval" and T.const(n.ev.get("rhs")) == 1]
+    rep.floor("C16.i `retval = 1` in rb_remove_extent", len(hits_), 2)
+    n_cmp = 0
+    for i, n in enumerate(hits_):
+        for t, a_ in control_lits(rre, n):
+            a0 = T.strip(a_)
+            if t is None or not (isinstance(a0, dict) and a0.get("k") == "b" and a0.get("o") in ("<", "<=", ">", ">=")):
+                continue
+            fl_, fr_ = linear_form(a0["l"], rre), linear_form(a0["r"], rre)
+            if fl_ is None or fr_ is None:
+                continue
+            ks = [sorted(str(k) for k in f_ if k != 1) for f_ in (fl_, fr_)]
+            # an end against a beginning: two terms on one side, one on the other
+            if sorted(len(k) for k in ks) != [1, 2] or fl_.get(1, 0) or fr_.get(1, 0):
+                continue
+            n_cmp += 1
+            holds_at_equality = a0["o"] in ("<=", ">=")
+            rep.ob("C16.i", site(rre, "an extent touching the range from outside does not count#%d.%d" % (i, n_cmp)), holds_at_equality != t,
+                   "`%s` taken %s on the way to `retval = 1` (line %d) excludes the case that the two are equal" % (T.pp(a_)[:50], t, n.line))
+    rep.floor("C16.i end-against-beginning comparisons in front of `retval = 1`", n_cmp, 3)
+
     # ------------------------------------------------------------------ C16.d set_range assigns in both backends
     # the bit array copies the bytes over the range; the tree must drop what the range held before inserting
     ba = prog.fn("ba_set_bmap_range", "lib/ext2fs/blkmap64_ba.c")
